@@ -89,15 +89,24 @@ def file_route(rec, idx, n, workdir):
     import contextlib, io
 
     probs = []
-    names = ["m%d" % i for i in range(n)]
+    clusters = None
+    if idx % 3 == 2:
+        # a clustered run: data points are clusters whose integer ids have gaps and do not start at 0; two mutations each
+        import pandas as pd
+        cids = [3 + 4 * i for i in range(n)]
+        names = [str(c) for c in cids]
+        clusters = pd.DataFrame([{"mutation_id": "mut_%d_%d" % (i, j), "cluster_id": cids[i]} for i in range(n) for j in (1, 2)])
+        name_to_idx = {"mut_%d_%d" % (i, j): i for i in range(n) for j in (1, 2)}
+    else:
+        names = ["m%d" % i for i in range(n)]
+        name_to_idx = {nm: i for i, nm in enumerate(names)}
     data = gridoracle.data_from_tables(gridoracle.int_tables(n, 1, 5, 3), names=names)
-    name_to_idx = {nm: i for i, nm in enumerate(names)}
     d = os.path.join(workdir, "c%d_%d" % (os.getpid(), idx))
     os.makedirs(d, exist_ok=True)
     ents = [(absstate.canon(e["t"]), math.log(e["m"]) - 2.5, idx + j) for j, e in enumerate(rec["trees"])]
     chains = ([(1, ents[1:]), (0, ents[:1])] if idx % 2 else [(0, ents[:1]), (1, ents[1:])]) if len(ents) > 1 else [(0, ents)]
     tp = os.path.join(d, "trace.pkl.gz")
-    outputs.write_trace_file(tp, chains, data, ["s0"])
+    outputs.write_trace_file(tp, chains, data, ["s0"], clusters=clusters)
     try:
         for bt in rec["by_theta"]:
             if not bt["determined"]:
